@@ -542,6 +542,72 @@ func rulesC15(p *Prog, r *Report) {
 		}
 	}
 
+	// R15.7 ------------------------------------------------------------------------
+	// At any depth inside a unit: the error of a step that can fail after it has written state
+	// is looked at. An error that is assigned and never tested nor returned (a test of another,
+	// already-nil variable is the usual slip) lets the function carry on over a half-applied step.
+	r.Rule("R15.7", "inside units, at any depth: the error of a step that can fail after writing is tested or returned, never dropped", 20)
+	{
+		var roots []*ssa.Function
+		for _, u := range units {
+			if u.Closure != nil {
+				roots = append(roots, u.Closure)
+			}
+		}
+		for _, h := range hooks {
+			roots = append(roots, h.Fn)
+		}
+		isRoot := map[*ssa.Function]bool{}
+		for _, f := range roots {
+			isRoot[f] = true
+		}
+		inUnits := p.Reachable(roots, func(f *ssa.Function) bool { return f == af || p.isAuxFn(f) })
+		var fs []*ssa.Function
+		for f := range inUnits {
+			if !isRoot[f] && isComdexFn(f) && len(f.Blocks) > 0 {
+				fs = append(fs, f)
+			}
+		}
+		sort.Slice(fs, func(i, j int) bool { return fname(fs[i]) < fname(fs[j]) })
+		for _, f := range fs {
+			n := map[string]int{}
+			for _, c := range calls(f) {
+				call, ok := c.(*ssa.Call)
+				if !ok || p.callIsFn(c, af) {
+					continue
+				}
+				bad := false
+				var why []string
+				for _, t := range p.Callees(c) {
+					if isComdexFn(t) {
+						if b, ch := faw.Fn(t); b {
+							bad, why = true, ch
+						}
+					}
+				}
+				if !bad {
+					continue
+				}
+				if callbackNeverFails(call) {
+					continue // an iterator whose only failure is the callback's, and the callback never fails
+				}
+				r.Instance("R15.7")
+				r.FuncsSeen[fname(f)] = true
+				base := fmt.Sprintf("%s: error of %s", fname(f), callName(c))
+				n[base]++
+				construct := base
+				if n[base] > 1 {
+					construct = fmt.Sprintf("%s #%d", base, n[base])
+				}
+				if dropped, pos := errorDropped(p, f, call); dropped {
+					r.Fail("R15.7", construct, "the step can fail after it has written state and its error is neither tested nor returned: the function carries on over a half-applied step and the enclosing unit commits it", pos, why)
+				} else {
+					r.OK("R15.7", construct, "the error is tested or returned", p.instrPos(c))
+				}
+			}
+		}
+	}
+
 	// R15.4 ------------------------------------------------------------------------
 	r.Rule("R15.4", "unwrapped hook code: slices bounded by the sliced list's own length; no explicit panic; no unchecked integer division", 4)
 	var inventory []string
@@ -915,6 +981,92 @@ func (q *failsAfterWrite) writeBefore(fn *ssa.Function, c ssa.CallInstruction) b
 		}
 	}
 	return false
+}
+
+// callbackNeverFails: the call is handed a function literal with an error result and every
+// return of that literal gives a nil error (store iterators: `_ = k.IterateX(ctx, func(..) (bool, error) {...; return false, nil})`).
+func callbackNeverFails(call *ssa.Call) bool {
+	found := false
+	for _, a := range call.Call.Args {
+		var cl *ssa.Function
+		switch x := a.(type) {
+		case *ssa.MakeClosure:
+			cl, _ = x.Fn.(*ssa.Function)
+		case *ssa.Function:
+			cl = x
+		}
+		if cl == nil || len(cl.Blocks) == 0 {
+			continue
+		}
+		ei := errResultIndex(cl)
+		if ei < 0 {
+			continue
+		}
+		found = true
+		for _, rt := range returns(cl) {
+			if ei >= len(rt.Results) {
+				return false
+			}
+			if k, ok := rt.Results[ei].(*ssa.Const); !ok || !k.IsNil() {
+				return false
+			}
+		}
+	}
+	return found
+}
+
+// errorDropped: the error result of call is discarded, or assigned and then neither
+// nil-tested nor returned.
+func errorDropped(p *Prog, f *ssa.Function, call *ssa.Call) (bool, string) {
+	sig := call.Call.Signature()
+	n := sig.Results().Len()
+	if n == 0 || !isErrorType(sig.Results().At(n-1).Type()) {
+		return false, ""
+	}
+	var ev ssa.Value
+	if n == 1 {
+		ev = call
+	} else {
+		for _, ref := range *call.Referrers() {
+			if ex, ok := ref.(*ssa.Extract); ok && ex.Index == n-1 {
+				ev = ex
+			}
+		}
+	}
+	if ev == nil || ev.Referrers() == nil || len(*ev.Referrers()) == 0 {
+		return true, p.instrPos(call)
+	}
+	users := map[ssa.Value]bool{ev: true}
+	for changed := true; changed; {
+		changed = false
+		for u := range users {
+			if u.Referrers() == nil {
+				continue
+			}
+			for _, ref := range *u.Referrers() {
+				if ph, ok := ref.(*ssa.Phi); ok && !users[ph] {
+					users[ph] = true
+					changed = true
+				}
+			}
+		}
+	}
+	for u := range users {
+		for _, ref := range *u.Referrers() {
+			switch x := ref.(type) {
+			case *ssa.Return:
+				return false, ""
+			case *ssa.BinOp:
+				return false, "" // compared (err != nil, errors.Is through a call is below)
+			case ssa.CallInstruction:
+				_ = x
+				return false, "" // handed on (wrapped, logged with a decision, stored)
+			case *ssa.Store, *ssa.MakeInterface, *ssa.ChangeInterface, *ssa.TypeAssert:
+				return false, ""
+			}
+		}
+	}
+	return true, p.instrPos(call)
 }
 
 // errorSwallowed: the error result of call is ignored, or its non-nil branch can reach a
